@@ -89,19 +89,42 @@ def _correspondence_once(ctx, rep=0):
 def search(ctx):
     """the property directly: float32 implementation vs its float64 twin"""
     direct(ctx, oracles.all_entries('quick'))
+    if len(ctx.failing) >= 6:
+        return
+    # the same in a FRESH interpreter with the float64 twin evaluated FIRST (state kept at module level — a cache filled by whichever
+    # precision came first in the process — makes the result depend on the order of the calls)
+    import subprocess, sys as _sys, json as _json
+    try:
+        pr = subprocess.run([_sys.executable, '-W', 'ignore', '-c',
+                             'import json,sys\nfrom harness.props import c19\nprint("R="+json.dumps(c19.fresh_first64(int(sys.argv[1])), default=str))', str(ctx.seed)],
+                            capture_output=True, text=True, timeout=900)
+        line = next((l for l in pr.stdout.splitlines() if l.startswith('R=')), None)
+        for f in (_json.loads(line[2:]) if line else []):
+            ctx.fail(f['what'] + ' (fresh interpreter, float64 twin evaluated first)', dict(f['case'], order='float64 first', fresh_process=True),
+                     match=dict(f.get('match') or {}, order='float64-first'))
+    except Exception as ex:
+        ctx.notes.append('C19 fresh-interpreter search raised %r' % (ex,))
 
 
-def direct(ctx, entries, count=False):
+def fresh_first64(seed):
+    from harness.common import run as _run
+    c2 = _run.Ctx('C19', 'quick', seed)
+    c2.known_entries = []
+    direct(c2, oracles.all_entries('quick'), first64=True)
+    return [{'what': f['what'], 'case': f['case'], 'match': f.get('match')} for f in c2.failing]
+
+
+def direct(ctx, entries, count=False, first64=False):
     gen = torch.Generator().manual_seed(ctx.seed + 1919)
     for e in entries:
         try:
             for regime in (('fresh',) if e.extra.get('big') else ('fresh', 'normal')):
                 t32 = tcorr.build(e, gen, torch.float32, regime)
-                if not e.extra.get('train'):
+                if not e.extra.get('train') and not first64:
                     # the twin is made from a model that has already been evaluated (a per-instance memo must not survive the conversion)
                     R.impl_call(t32, R.make_inputs(e, 2, gen, torch.float32, False), R.make_context(e, 2, gen, torch.float32), False)
                 t64 = copy.deepcopy(t32).double()
-                for inverse in (False, True):
+                for inverse in ((True, False) if first64 else (False, True)):
                     if inverse and (e.name.startswith('Squeeze') or 'UMNN' in e.name or e.extra.get('train')):
                         continue   # UMNN: independently drawn points need not lie in the range reachable by the bisection bracket
                     x32 = R.make_inputs(e, 3, gen, torch.float32, inverse)
@@ -113,8 +136,12 @@ def direct(ctx, entries, count=False):
                         t32.train(); t64.train()
                         x32 = e.extra['offset'] + e.extra['spread'] * torch.randn((16,) + e.in_shape, generator=gen, dtype=torch.float32)
                     c32 = R.make_context(e, 3, gen, torch.float32)
-                    k32, y32, l32 = R.impl_call(t32, x32, c32, inverse)
-                    k64, y64, l64 = R.impl_call(t64, x32.double(), c32.double() if c32 is not None else None, inverse)
+                    if first64:
+                        k64, y64, l64 = R.impl_call(t64, x32.double(), c32.double() if c32 is not None else None, inverse)
+                        k32, y32, l32 = R.impl_call(t32, x32, c32, inverse)
+                    else:
+                        k32, y32, l32 = R.impl_call(t32, x32, c32, inverse)
+                        k64, y64, l64 = R.impl_call(t64, x32.double(), c32.double() if c32 is not None else None, inverse)
                     cls = e.name.split('/')[0]
                     case = {'entry': e.name, 'regime': regime, 'inverse': inverse, 'x': x32.reshape(-1).tolist()[:12]}
                     M = lambda sym: {'class': cls, 'symptom': sym, 'family': e.spline.get('fam'), 'inverse': inverse, 'dtype': 'float32'}
